@@ -1519,4 +1519,619 @@ theorem good_at_root (g : Graph) (d : Nat → Nat) (w : Nat) (s : State) (hn : s
   ⟨hn, hc, he, by rw [hp]; exact walk_root g d g.root⟩
 
 
+
+/-! ## the shape of the paths in reachable states -/
+
+/-- a piece of a step of worker `w`: the records of the other workers and the sizes of the tables stay -/
+structure Loc (w : Nat) (s s' : State) : Prop where
+  nodesLen : s'.nodes.length = s.nodes.length
+  regsLen : s'.regs.length = s.regs.length
+  workersLen : s'.workers.length = s.workers.length
+  others : ∀ v, v ≠ w → s'.wd v = s.wd v
+  hiddenSub : ∀ x, x ∈ s'.hidden → x ∈ s.hidden
+  incSub : ∀ x, x ∈ s.incompatible → x ∈ s'.incompatible
+
+theorem Loc.refl (w : Nat) (s : State) : Loc w s s := ⟨rfl, rfl, rfl, fun _ _ => rfl, fun _ h => h, fun _ h => h⟩
+
+theorem Loc.trans {w : Nat} {s s1 s2 : State} (a : Loc w s s1) (b : Loc w s1 s2) : Loc w s s2 :=
+  ⟨b.nodesLen.trans a.nodesLen, b.regsLen.trans a.regsLen, b.workersLen.trans a.workersLen,
+   fun v hv => (b.others v hv).trans (a.others v hv), fun x hx => a.hiddenSub x (b.hiddenSub x hx),
+   fun x hx => b.incSub x (a.incSub x hx)⟩
+
+theorem loc_setWd (w : Nat) (s : State) (f : WorkerD → WorkerD) : Loc w s (s.setWd w f) :=
+  ⟨rfl, rfl, by simp [State.setWd], fun v hv => wd_setWd_ne s w v f hv, fun _ h => h, fun _ h => h⟩
+
+/-- ... and the own record stays as well -/
+structure LW (w : Nat) (s s' : State) : Prop extends Loc w s s' where
+  own : s'.wd w = s.wd w
+
+theorem LW.refl (w : Nat) (s : State) : LW w s s := ⟨Loc.refl w s, rfl⟩
+
+theorem LW.trans {w : Nat} {s s1 s2 : State} (a : LW w s s1) (b : LW w s1 s2) : LW w s s2 :=
+  ⟨a.toLoc.trans b.toLoc, b.own.trans a.own⟩
+
+theorem Fr.lw {s s' : State} (a : Fr s s') (w : Nat) : LW w s s' :=
+  ⟨⟨a.nodesLen, by rw [a.regs], by rw [a.workers], fun v _ => a.wd v, fun x hx => by rw [← a.hidden]; exact hx,
+    fun x hx => by rw [a.incompatible]; exact hx⟩, a.wd w⟩
+
+theorem lw_setCr (w : Nat) (s : State) (c : Nat) (f : ClassRegs → ClassRegs) : LW w s (s.setCr c f) :=
+  ⟨⟨rfl, regs_length_setCr s c f, rfl, fun _ _ => rfl, fun _ h => h, fun _ h => h⟩, rfl⟩
+
+theorem lw_dropChildren (g : Graph) (next w : Nat) (l : List (Nat × List String)) (s : State) :
+    LW w s (l.foldl (fun s (p, _) => dropChild g s p next w) s) := by
+  induction l generalizing s with
+  | nil => exact LW.refl w s
+  | cons a r ih => simp only [List.foldl_cons]; exact (lw_setCr w s _ _).trans (ih _)
+
+/-- the direction recorded with a test execution matches the path: a node entered downwards was reached downwards -/
+def DirOK (g : Graph) (d : WorkerD) : Prop :=
+  ∀ n ph uid tag wt, d.pc = .test n ph .down uid tag wt → ∀ last, d.path.getLast? = some last →
+    isUp g (d.path.getD (d.path.length - 2) 0) last = false
+
+theorem dirOK_of_pc (g : Graph) (d : WorkerD) (h : ∀ n ph dir uid tag wt, d.pc ≠ .test n ph dir uid tag wt) : DirOK g d :=
+  fun n ph uid tag wt hp => absurd hp (h n ph .down uid tag wt)
+
+/-- the path effects that keep the walk -/
+theorem own_pop {g : Graph} {d : Nat → Nat} {w : Nat} {s sX : State} (a : LW w s sX) (hw : w < s.workers.length)
+    (hwalk : Walk g d (s.wd w).path) :
+    Loc w s (popPath sX w) ∧ Walk g d ((popPath sX w).wd w).path ∧ ((popPath sX w).wd w).pc = (s.wd w).pc := by
+  have hwX : w < sX.workers.length := by rw [a.workersLen]; exact hw
+  unfold popPath
+  rw [wd_setWd_eq sX w _ hwX, a.own]
+  exact ⟨a.toLoc.trans (loc_setWd w sX _), walk_pop g d _ hwalk, rfl⟩
+
+theorem own_push {g : Graph} {d : Nat → Nat} {w : Nat} {s sX : State} (a : LW w s sX) (hw : w < s.workers.length) (c : Nat)
+    (hwalk : Walk g d ((s.wd w).path ++ [c])) :
+    Loc w s (pushPath sX w c) ∧ Walk g d ((pushPath sX w c).wd w).path ∧ ((pushPath sX w c).wd w).pc = (s.wd w).pc := by
+  have hwX : w < sX.workers.length := by rw [a.workersLen]; exact hw
+  unfold pushPath
+  rw [wd_setWd_eq sX w _ hwX, a.own]
+  exact ⟨a.toLoc.trans (loc_setWd w sX _), hwalk, rfl⟩
+
+theorem afterTraverse_any (g : Graph) (d : Nat → Nat) (hr : Ranked g d) (hsym : EdgeSym g) (sv sF : State)
+    (w next prev : Nat) (dir : Dir) (hw : w < sF.workers.length)
+    (hlast : (sF.wd w).path.getLast? = some next)
+    (hprev : prev = (sF.wd w).path.getD ((sF.wd w).path.length - 2) 0)
+    (hwalk : Walk g d (sF.wd w).path) (hdir : dir = .down → isUp g prev next = false) :
+    Loc w sF (afterTraverse (vis g sv) sF w next prev dir).1 ∧
+    Walk g d ((afterTraverse (vis g sv) sF w next prev dir).1.wd w).path ∧
+    ((afterTraverse (vis g sv) sF w next prev dir).1.wd w).pc = (sF.wd w).pc := by
+  unfold afterTraverse
+  cases hrd : runDecision (vis g sv) sF next w with
+  | error e => exact ⟨Loc.refl _ _, hwalk, rfl⟩
+  | ok r =>
+    obtain ⟨run, s1, evs⟩ := r
+    have a1 : LW w sF s1 := (fr_runDecision _ sF next w run s1 evs hrd).lw w
+    cases dir with
+    | up =>
+      dsimp only
+      have aX : LW w sF (if (!run) = true then dropParent (vis g sv) s1 prev next w else s1) := by
+        split
+        · exact a1.trans (lw_setCr w s1 _ _)
+        · exact a1
+      exact own_pop aX hw hwalk
+    | down =>
+      dsimp only
+      by_cases hrun : run = true
+      · simp only [hrun, if_true]
+        exact own_pop a1 hw hwalk
+      · simp only [hrun, Bool.false_eq_true, if_false]
+        by_cases hcr : isCleanupReady (vis g sv) s1 next w = true
+        · simp only [hcr, if_true]
+          by_cases hpp : (!((vis g sv).node next).flat && (s1.wd w).unexplored) = true
+          · simp only [hpp, if_true]
+            have hw1 : w < s1.workers.length := by rw [a1.workersLen]; exact hw
+            rw [wd_setWd_eq s1 w _ hw1, a1.own, vis_root]
+            exact ⟨a1.toLoc.trans (loc_setWd w s1 _), walk_root g d g.root, rfl⟩
+          · simp only [hpp, Bool.false_eq_true, if_false]
+            have aD := a1.trans (lw_dropChildren (vis g sv) next w ((vis g sv).node next).setup s1)
+            cases hrev : reverseNode (vis g sv) (List.foldl (fun s x => dropChild (vis g sv) s x.1 next w) s1 ((vis g sv).node next).setup) next w with
+            | error e =>
+              dsimp only
+              rw [aD.own]
+              exact ⟨aD.toLoc, hwalk, rfl⟩
+            | ok r =>
+              obtain ⟨s3, evs3⟩ := r
+              dsimp only
+              exact own_pop (aD.trans ((fr_reverseNode _ _ next w s3 evs3 hrev).lw w)) hw hwalk
+        · simp only [hcr, Bool.false_eq_true, if_false]
+          cases hpk : pickChild (vis g sv) s1 next w with
+          | none =>
+            dsimp only
+            rw [a1.own]
+            exact ⟨a1.toLoc, hwalk, rfl⟩
+          | some r =>
+            obtain ⟨c, s3⟩ := r
+            dsimp only
+            obtain ⟨hcm, _, f, hs3, _⟩ := pickChild_spec _ s1 next w c s3 hpk
+            have a3 : LW w sF s3 := by rw [hs3]; exact a1.trans (lw_setCr w s1 _ _)
+            exact own_push a3 hw c (walk_pushDown g d hr hsym _ next c hwalk hlast (vis_cleanup_sub g sv next c hcm)
+              (Or.inr (by rw [← hprev]; exact hdir rfl)))
+
+
+theorem startTest_regs (g : Graph) (s : State) (n w : Nat) (ph : Phase) (dir : Dir) :
+    (startTest g s n w ph dir).1.regs = s.regs := by
+  unfold startTest
+  dsimp only
+  split <;> rfl
+
+theorem startTest_inc (g : Graph) (s : State) (n w : Nat) (ph : Phase) (dir : Dir) :
+    (startTest g s n w ph dir).1.incompatible = s.incompatible := by
+  unfold startTest
+  dsimp only
+  split <;> rfl
+
+theorem startTest_own (g : Graph) (s : State) (n w : Nat) (ph : Phase) (dir : Dir) (hw : w < s.workers.length) :
+    Loc w s (startTest g s n w ph dir).1 ∧ ((startTest g s n w ph dir).1.wd w).path = (s.wd w).path ∧
+    ∃ uid tag, ((startTest g s n w ph dir).1.wd w).pc = .test n ph dir uid tag 0 := by
+  obtain ⟨a, b, c, _⟩ := startTest_ok g s n w ph dir hw
+  exact ⟨⟨a.nodesLen, by rw [startTest_regs], a.workersLen, a.others, fun x hx => by rw [← a.hidden]; exact hx,
+    fun x hx => by rw [startTest_inc]; exact hx⟩, b, c⟩
+
+theorem dirOK_test (g : Graph) (wd : WorkerD) (n : Nat) (ph : Phase) (dir : Dir) (uid : String) (tag wt : Nat)
+    (hpc : wd.pc = .test n ph dir uid tag wt) (next : Nat) (hl : wd.path.getLast? = some next)
+    (hdir : dir = .down → isUp g (wd.path.getD (wd.path.length - 2) 0) next = false) : DirOK g wd := by
+  intro n' ph' uid' tag' wt' hp last hlast
+  rw [hpc] at hp
+  injection hp with _ _ h3
+  rw [hl] at hlast
+  injection hlast with h4
+  rw [← h4]
+  exact hdir h3
+
+theorem traverseNode_any (g : Graph) (d : Nat → Nat) (hr : Ranked g d) (hsym : EdgeSym g) (sv s : State)
+    (w next prev : Nat) (dir : Dir) (hw : w < s.workers.length)
+    (hlast : (s.wd w).path.getLast? = some next)
+    (hprev : prev = (s.wd w).path.getD ((s.wd w).path.length - 2) 0)
+    (hwalk : Walk g d (s.wd w).path) (hdir : dir = .down → isUp g prev next = false)
+    (hpc : (s.wd w).pc = .loop) :
+    Loc w s (traverseNode (vis g sv) s w next prev dir).1 ∧
+    Walk g d ((traverseNode (vis g sv) s w next prev dir).1.wd w).path ∧
+    DirOK g ((traverseNode (vis g sv) s w next prev dir).1.wd w) := by
+  have viaAfter : ∀ sF, LW w s sF →
+      Loc w s (afterTraverse (vis g sv) sF w next prev dir).1 ∧
+      Walk g d ((afterTraverse (vis g sv) sF w next prev dir).1.wd w).path ∧
+      DirOK g ((afterTraverse (vis g sv) sF w next prev dir).1.wd w) := by
+    intro sF aF
+    obtain ⟨h1, h2, h3⟩ := afterTraverse_any g d hr hsym sv sF w next prev dir (by rw [aF.workersLen]; exact hw)
+      (by rw [aF.own]; exact hlast) (by rw [aF.own]; exact hprev) (by rw [aF.own]; exact hwalk) hdir
+    refine ⟨aF.toLoc.trans h1, h2, dirOK_of_pc g _ ?_⟩
+    intro n ph dir uid tag wt hx
+    rw [h3, aF.own, hpc] at hx
+    cases hx
+  unfold traverseNode
+  by_cases hocc : isOccupied (vis g sv) s next w = true
+  · simp only [hocc, if_true]
+    exact viaAfter s (LW.refl w s)
+  · simp only [hocc, Bool.false_eq_true, if_false]
+    have aP : LW w s (pullLocations (vis g sv) (s.setNd next (fun d => { d with started := some w })) next) :=
+      ((fr_setNd s next _).trans (fr_pullLocations _ _ next)).lw w
+    generalize pullLocations (vis g sv) (s.setNd next (fun d => { d with started := some w })) next = sa at aP ⊢
+    cases hd : runDecision (vis g sv) sa next w with
+    | error e =>
+      dsimp only
+      rw [aP.own]
+      exact ⟨aP.toLoc, hwalk, dirOK_of_pc g _ (by intro n ph dir uid tag wt hx; rw [hpc] at hx; cases hx)⟩
+    | ok r =>
+      obtain ⟨run, s1, evs⟩ := r
+      have a1 : LW w s s1 := aP.trans ((fr_runDecision _ sa next w run s1 evs hd).lw w)
+      have hw1 : w < s1.workers.length := by rw [a1.workersLen]; exact hw
+      dsimp only
+      -- a started test: the path stays, the recorded direction is the one of this iteration
+      have started : ∀ sT : State, Loc w s sT → (sT.wd w).path = (s.wd w).path → ∀ ph,
+          Loc w s (startTest (vis g sv) sT next w ph dir).1 ∧
+          Walk g d ((startTest (vis g sv) sT next w ph dir).1.wd w).path ∧
+          DirOK g ((startTest (vis g sv) sT next w ph dir).1.wd w) := by
+        intro sT aT hpT ph
+        obtain ⟨h1, h2, uid, tag, h3⟩ := startTest_own (vis g sv) sT next w ph dir (by rw [aT.workersLen]; exact hw)
+        rw [hpT] at h2
+        refine ⟨aT.trans h1, by rw [h2]; exact hwalk, ?_⟩
+        refine dirOK_test g _ next ph dir uid tag 0 h3 next (by rw [h2]; exact hlast) ?_
+        intro hdn
+        rw [h2, ← hprev]
+        exact hdir hdn
+      by_cases hrun : run = true
+      · simp only [hrun, if_true]
+        by_cases hroot : ((vis g sv).node next).objectRoot = true
+        · simp only [hroot, if_true]
+          refine started _ (a1.toLoc.trans (loc_setWd w s1 _)) ?_ .pre
+          rw [wd_setWd_eq s1 w _ hw1, a1.own]
+        · simp only [hroot, Bool.false_eq_true, if_false]
+          exact started s1 a1.toLoc (by rw [a1.own]) .plain
+      · simp only [hrun, Bool.false_eq_true, if_false]
+        exact viaAfter _ (a1.trans ((fr_finishTraverse s1 next w).lw w))
+
+
+theorem pc_setWd_const (s : State) (w : Nat) (f : WorkerD → WorkerD) (hf : ∀ d, (f d).pc = .loop) (h : (s.wd w).pc = .loop) :
+    ((s.setWd w f).wd w).pc = .loop := by
+  by_cases hw : w < s.workers.length
+  · rw [wd_setWd_eq s w f hw]; exact hf _
+  · have : (s.setWd w f).wd w = s.wd w := by
+      unfold State.setWd State.wd
+      simp only [List.getD_eq_getElem?_getD, List.getElem?_modify]
+      have : s.workers[w]? = none := by simp; omega
+      simp [this]
+    rw [this]; exact h
+
+theorem iter_any (g : Graph) (d : Nat → Nat) (hr : Ranked g d) (hsym : EdgeSym g) (s : State) (w : Nat)
+    (hwalk : Walk g d (s.wd w).path) (hpc : (s.wd w).pc = .loop) :
+    Loc w s (iter (vis g s) s w).1 ∧ Walk g d ((iter (vis g s) s w).1.wd w).path ∧
+    DirOK g ((iter (vis g s) s w).1.wd w) := by
+  have hd0 : DirOK g (s.wd w) := dirOK_of_pc g _ (by intro n ph dir uid tag wt hx; rw [hpc] at hx; cases hx)
+  have same : Loc w s s ∧ Walk g d (s.wd w).path ∧ DirOK g (s.wd w) := ⟨Loc.refl w s, hwalk, hd0⟩
+  -- a push keeps the pc
+  have pushed : ∀ (sX : State) (c : Nat), LW w s sX → w < s.workers.length → Walk g d ((s.wd w).path ++ [c]) →
+      Loc w s (pushPath sX w c) ∧ Walk g d ((pushPath sX w c).wd w).path ∧ DirOK g ((pushPath sX w c).wd w) := by
+    intro sX c aX hw hwk
+    obtain ⟨h1, h2, h3⟩ := own_push aX hw c hwk
+    exact ⟨h1, h2, dirOK_of_pc g _ (by intro n ph dir uid tag wt hx; rw [h3, hpc] at hx; cases hx)⟩
+  unfold iter
+  dsimp only
+  by_cases hroot : isCleanupReady (vis g s) s (vis g s).root w = true
+  · simp only [hroot, if_true]
+    split
+    · next hp =>
+      have hp' : (s.wd w).path = [(vis g s).root] := by simpa using hp
+      have hw : w < s.workers.length := lt_of_path_ne_nil s w (by rw [hp']; simp)
+      dsimp only
+      rw [wd_setWd_eq s w _ hw]
+      exact ⟨loc_setWd w s _, walk_nil g d, dirOK_of_pc g _ (by intro n ph dir uid tag wt hx; cases hx)⟩
+    · exact same
+  · simp only [hroot, Bool.false_eq_true, if_false]
+    cases hl : (s.wd w).path.getLast? with
+    | none => exact same
+    | some next =>
+      have hne : (s.wd w).path ≠ [] := by intro h; rw [h] at hl; simp at hl
+      have hw : w < s.workers.length := lt_of_path_ne_nil s w hne
+      dsimp only
+      have pushParent : Loc w s (match pickParent (vis g s) s next w with
+            | none => ((s, [], Flow.raise "RuntimeError") : Step)
+            | some (p, s') => (pushPath s' w p, [], Flow.cont)).1 ∧
+          Walk g d ((match pickParent (vis g s) s next w with
+            | none => ((s, [], Flow.raise "RuntimeError") : Step)
+            | some (p, s') => (pushPath s' w p, [], Flow.cont)).1.wd w).path ∧
+          DirOK g ((match pickParent (vis g s) s next w with
+            | none => ((s, [], Flow.raise "RuntimeError") : Step)
+            | some (p, s') => (pushPath s' w p, [], Flow.cont)).1.wd w) := by
+        cases hpk : pickParent (vis g s) s next w with
+        | none => exact same
+        | some r =>
+          obtain ⟨c, s3⟩ := r
+          dsimp only
+          obtain ⟨hcm, _, f, hs3, _⟩ := pickParent_spec _ s next w c s3 hpk
+          exact pushed s3 c (by rw [hs3]; exact lw_setCr w s _ _) hw
+            (walk_pushUp g d hr hsym _ next c hwalk hl (vis_setup_sub g s next c hcm))
+      by_cases hlen1 : ((s.wd w).path.length == 1) = true
+      · simp only [hlen1, if_true]
+        have hlen1' : (s.wd w).path.length = 1 := by simpa using hlen1
+        cases hpk : pickChild (vis g s) s next w with
+        | none => exact same
+        | some r =>
+          obtain ⟨c, s3⟩ := r
+          dsimp only
+          obtain ⟨hcm, _, f, hs3, _⟩ := pickChild_spec _ s next w c s3 hpk
+          exact pushed s3 c (by rw [hs3]; exact lw_setCr w s _ _) hw
+            (walk_pushDown g d hr hsym _ next c hwalk hl (vis_cleanup_sub g s next c hcm) (Or.inl hlen1'))
+      · simp only [hlen1, Bool.false_eq_true, if_false]
+        by_cases hocc : isOccupied (vis g s) s next w = true
+        · -- the back-off
+          simp only [hocc, if_true]
+          have key : ∀ (sX : State) (f : WorkerD → WorkerD), Loc w s sX → (∀ x, (f x).path = [(vis g s).root]) →
+              (∀ x, (f x).pc = .bounce) →
+              Loc w s (sX.setWd w f) ∧ Walk g d ((sX.setWd w f).wd w).path ∧ DirOK g ((sX.setWd w f).wd w) := by
+            intro sX f aX h1 h2
+            have hwX : w < sX.workers.length := by rw [aX.workersLen]; exact hw
+            rw [wd_setWd_eq sX w f hwX]
+            refine ⟨aX.trans (loc_setWd w sX f), by rw [h1, vis_root]; exact walk_root g d g.root, dirOK_of_pc g _ ?_⟩
+            intro n ph dir uid tag wt hx
+            rw [h2] at hx; cases hx
+          refine key _ _ ?_ (fun _ => rfl) (fun _ => rfl)
+          split
+          · refine Loc.trans ?_ (loc_setWd w _ _)
+            split
+            · exact ((fr_setNd s next _).lw w).toLoc
+            · exact Loc.refl w s
+          · exact loc_setWd w s _
+        · simp only [hocc, Bool.false_eq_true, if_false]
+          by_cases hup : (((vis g s).node next).cleanup.map (·.1)).contains ((s.wd w).path.getD ((s.wd w).path.length - 2) 0) = true
+          · simp only [hup, if_true]
+            by_cases hsr : isSetupReady (vis g s) s next w = true
+            · simp only [hsr, if_true]
+              exact traverseNode_any g d hr hsym s s w next _ .up hw hl rfl hwalk (fun h => by cases h) hpc
+            · simp only [hsr, Bool.false_eq_true, if_false]
+              exact pushParent
+          · simp only [hup, Bool.false_eq_true, if_false]
+            by_cases hdn : (((vis g s).node next).setup.map (·.1)).contains ((s.wd w).path.getD ((s.wd w).path.length - 2) 0) = true
+            · simp only [hdn, if_true]
+              by_cases hsr : isSetupReady (vis g s) s next w = true
+              · simp only [hsr, Bool.not_true, Bool.false_eq_true, if_false]
+                have hmem := vis_setup_sub g s next _ (by simpa using hdn)
+                exact traverseNode_any g d hr hsym s s w next _ .down hw hl rfl hwalk
+                  (fun _ => isUp_child g d hr hsym _ next ((hsym _ next).mp hmem)) hpc
+              · simp only [hsr, Bool.not_false, if_true]
+                exact pushParent
+            · simp only [hdn, Bool.false_eq_true, if_false]
+              exact same
+
+
+theorem prepare_loc (g : Graph) (s : State) (w : Nat) :
+    Loc w s (prepare g s w) ∧ ((prepare g s w).wd w).path = (s.wd w).path ∧ ((prepare g s w).wd w).pc = (s.wd w).pc := by
+  obtain ⟨h1, h2, h3, h4⟩ := prepare_frame g s w
+  refine ⟨⟨by rw [h1], ?_, h2, ?_, h4, ?_⟩, (h3 w).1, (h3 w).2⟩
+  · unfold prepare
+    dsimp only
+    split
+    · rfl
+    · split
+      · unfold reveal; dsimp only; split <;> rfl
+      · rfl
+  · intro v hv
+    unfold prepare
+    dsimp only
+    split
+    · rfl
+    · split
+      · have : ∀ (sx : State) (f : Nat), (reveal g sx f w).workers = sx.workers := fun sx f => (reveal_frame g sx f w).2.1
+        unfold State.wd
+        rw [this]
+        exact wd_setWd_ne s w v _ hv
+      · exact wd_setWd_ne s w v _ hv
+  · intro x hx
+    unfold prepare
+    dsimp only
+    split
+    · exact hx
+    · split
+      · unfold reveal; dsimp only
+        split
+        · exact List.mem_append_left _ hx
+        · exact hx
+      · exact hx
+
+theorem iterL_any (g : Graph) (d : Nat → Nat) (hr : Ranked g d) (hsym : EdgeSym g) (s : State) (w : Nat)
+    (hwalk : Walk g d (s.wd w).path) (hpc : (s.wd w).pc = .loop) :
+    Loc w s (iterL g s w).1 ∧ Walk g d ((iterL g s w).1.wd w).path ∧ DirOK g ((iterL g s w).1.wd w) := by
+  unfold iterL
+  split
+  · exact iter_any g d hr hsym s w hwalk hpc
+  · dsimp only
+    obtain ⟨a, b, c⟩ := prepare_loc g s w
+    obtain ⟨h1, h2, h3⟩ := iter_any g d hr hsym (prepare g s w) w (by rw [b]; exact hwalk) (by rw [c]; exact hpc)
+    exact ⟨a.trans h1, h2, h3⟩
+
+theorem pc_setLoop (s : State) (w : Nat) : ((s.setWd w (fun d => { d with pc := .loop })).wd w).pc = .loop ∨
+    ¬ w < s.workers.length := by
+  by_cases hw : w < s.workers.length
+  · left; rw [wd_setWd_eq s w _ hw]
+  · exact Or.inr hw
+
+theorem wd_of_ge (s : State) (w : Nat) (h : ¬ w < s.workers.length) : s.wd w = {} := by
+  unfold State.wd
+  rw [List.getD_eq_getElem?_getD, List.getElem?_eq_none (by omega)]; rfl
+
+/-- a whole block: the own path keeps its shape, a recorded direction matches it -/
+theorem runLoop_any (g : Graph) (d : Nat → Nat) (hr : Ranked g d) (hsym : EdgeSym g) (w : Nat) (fuel : Nat) (s : State)
+    (evs : List Event) (hwalk : Walk g d (s.wd w).path) (hd : fuel = 0 → DirOK g (s.wd w)) :
+    Loc w s (runLoop g w fuel s evs).1 ∧ Walk g d ((runLoop g w fuel s evs).1.wd w).path ∧
+    DirOK g ((runLoop g w fuel s evs).1.wd w) := by
+  induction fuel generalizing s evs with
+  | zero => exact ⟨Loc.refl w s, hwalk, hd rfl⟩
+  | succ fuel ih =>
+    unfold runLoop
+    dsimp only
+    have a0 : Loc w s (s.setWd w (fun d => { d with pc := .loop })) := loc_setWd w s _
+    have hp0 : ((s.setWd w (fun d => { d with pc := .loop })).wd w).path = (s.wd w).path :=
+      wd_setWd_proj (·.path) s w (fun d => { d with pc := .loop }) (fun _ => rfl) w
+    have hpc0 : ((s.setWd w (fun d => { d with pc := .loop })).wd w).pc = .loop := by
+      rcases pc_setLoop s w with h | h
+      · exact h
+      · rw [wd_of_ge _ w (by rw [a0.workersLen]; exact h)]
+    obtain ⟨h1, h2, h3⟩ := iterL_any g d hr hsym _ w (by rw [hp0]; exact hwalk) hpc0
+    split
+    · next s1 e heq =>
+      rw [heq] at h1 h2 h3
+      obtain ⟨k1, k2, k3⟩ := ih s1 (evs ++ e) h2 (fun _ => h3)
+      exact ⟨(a0.trans h1).trans k1, k2, k3⟩
+    · next s1 e heq => rw [heq] at h1 h2 h3; exact ⟨a0.trans h1, h2, h3⟩
+    · next s1 e heq => rw [heq] at h1 h2 h3; exact ⟨a0.trans h1, h2, h3⟩
+    · next s1 e what heq =>
+      rw [heq] at h1 h2 h3
+      dsimp only at h1 h2 h3 ⊢
+      refine ⟨(a0.trans h1).trans (loc_setWd w s1 _), ?_, ?_⟩
+      · rw [wd_setWd_proj (·.path) s1 w (fun d => { d with pc := .failed }) (fun _ => rfl) w]; exact h2
+      · by_cases hw : w < s1.workers.length
+        · rw [wd_setWd_eq s1 w _ hw]
+          exact dirOK_of_pc g _ (by intro n ph dir uid tag wt hx; cases hx)
+        · rw [wd_of_ge _ w (by simp [State.setWd]; omega)]
+          exact dirOK_of_pc g _ (by intro n ph dir uid tag wt hx; cases hx)
+
+
+theorem lw_of_eq (w : Nat) {s s' : State} (hn : s'.nodes = s.nodes) (hr : s'.regs = s.regs) (hw : s'.workers = s.workers)
+    (hh : s'.hidden = s.hidden) (hi : s'.incompatible = s.incompatible) : LW w s s' :=
+  ⟨⟨by rw [hn], by rw [hr], by rw [hw], fun v _ => by unfold State.wd; rw [hw], fun x hx => by rw [← hh]; exact hx,
+    fun x hx => by rw [hi]; exact hx⟩, by unfold State.wd; rw [hw]⟩
+
+theorem dirOK_failed (g : Graph) (s : State) (w : Nat) : DirOK g ((s.setWd w (fun d => { d with pc := .failed })).wd w) := by
+  by_cases hw : w < s.workers.length
+  · rw [wd_setWd_eq s w _ hw]
+    exact dirOK_of_pc g _ (by intro n ph dir uid tag wt hx; cases hx)
+  · rw [wd_of_ge _ w (by simp [State.setWd]; omega)]
+    exact dirOK_of_pc g _ (by intro n ph dir uid tag wt hx; cases hx)
+
+theorem continueAfter_any (g : Graph) (d : Nat → Nat) (hr : Ranked g d) (hsym : EdgeSym g) (w n : Nat) (phase : Phase)
+    (dir : Dir) (fuel : Nat) (hf : 0 < fuel) (s : State) (ok : Bool) (evs : List Event)
+    (hw : w < s.workers.length) (hlast : (s.wd w).path.getLast? = some n) (hwalk : Walk g d (s.wd w).path)
+    (hdir : dir = .down → isUp g ((s.wd w).path.getD ((s.wd w).path.length - 2) 0) n = false) :
+    Loc w s (resumeTest.continueAfter g w n phase dir fuel s ok evs).1 ∧
+    Walk g d ((resumeTest.continueAfter g w n phase dir fuel s ok evs).1.wd w).path ∧
+    DirOK g ((resumeTest.continueAfter g w n phase dir fuel s ok evs).1.wd w) := by
+  unfold resumeTest.continueAfter
+  dsimp only
+  split
+  · obtain ⟨h1, h2, uid, tag, h3⟩ := startTest_own g s n w .main dir hw
+    refine ⟨h1, by rw [h2]; exact hwalk, dirOK_test g _ n .main dir uid tag 0 h3 n (by rw [h2]; exact hlast) ?_⟩
+    rw [h2]; exact hdir
+  · have a2 : LW w s (if (phase == Phase.pre) = true then
+          s.setNd n (fun d => { d with results := d.results ++ (s.wd w).preResults.drop d.results.length })
+        else s) := by
+      split
+      · exact (fr_setNd s n _).lw w
+      · exact LW.refl w s
+    have aF := a2.trans ((fr_finishTraverse _ n w).lw w)
+    generalize finishTraverse (if (phase == Phase.pre) = true then
+          s.setNd n (fun d => { d with results := d.results ++ (s.wd w).preResults.drop d.results.length })
+        else s) n w = sF at aF
+    obtain ⟨h1, h2, _⟩ := afterTraverse_any g d hr hsym sF sF w n ((s.wd w).path.getD ((s.wd w).path.length - 2) 0) dir
+      (by rw [aF.workersLen]; exact hw) (by rw [aF.own]; exact hlast) (by rw [aF.own]) (by rw [aF.own]; exact hwalk) hdir
+    generalize afterTraverse (vis g sF) sF w n ((s.wd w).path.getD ((s.wd w).path.length - 2) 0) dir = r at h1 h2
+    obtain ⟨s1, e2, fl⟩ := r
+    dsimp only at h1 h2
+    have viaLoop : Loc w s (runLoop g w fuel s1 (evs ++ e2)).1 ∧ Walk g d ((runLoop g w fuel s1 (evs ++ e2)).1.wd w).path ∧
+        DirOK g ((runLoop g w fuel s1 (evs ++ e2)).1.wd w) := by
+      obtain ⟨k1, k2, k3⟩ := runLoop_any g d hr hsym w fuel s1 (evs ++ e2) h2 (fun h0 => by omega)
+      exact ⟨(aF.toLoc.trans h1).trans k1, k2, k3⟩
+    cases fl with
+    | raise what =>
+      dsimp only
+      refine ⟨(aF.toLoc.trans h1).trans (loc_setWd w s1 _), ?_, dirOK_failed g s1 w⟩
+      rw [wd_setWd_proj (·.path) s1 w (fun d => { d with pc := .failed }) (fun _ => rfl) w]; exact h2
+    | cont => exact viaLoop
+    | suspend => exact viaLoop
+    | exit => exact viaLoop
+
+theorem reportOutcome_lw (g : Graph) (s : State) (w n : Nat) (phase : Phase) (uid : String) (wait : Nat) (out : Outcome) :
+    LW w s (reportOutcome g s w n phase uid wait out).1 := by
+  unfold reportOutcome
+  dsimp only
+  split
+  · split
+    · split
+      · exact lw_of_eq w rfl rfl rfl rfl rfl
+      · exact lw_of_eq w rfl rfl rfl rfl rfl
+    · exact LW.refl w s
+  · exact LW.refl w s
+
+theorem recordResult_loc (s : State) (w n : Nat) (phase : Phase) (name uid : String) (tag : Nat) (st0 : String) (dur : Nat) :
+    Loc w s (recordResult s w n phase name uid tag st0 dur).1 ∧
+    ((recordResult s w n phase name uid tag st0 dur).1.wd w).path = (s.wd w).path ∧
+    ((recordResult s w n phase name uid tag st0 dur).1.wd w).pc = (s.wd w).pc := by
+  obtain ⟨b1, _, b3, _⟩ := recordResult_frame s w n phase name uid tag st0 dur
+  refine ⟨?_, (b3 w).1, (b3 w).2⟩
+  unfold recordResult
+  dsimp only
+  have hX : ∀ (c : Bool) (jr : List (String × String × String × Nat)),
+      LW w s (if c = true then { s with jobResults := jr } else s) := by
+    intro c jr; cases c
+    · exact LW.refl w s
+    · exact lw_of_eq w rfl rfl rfl rfl rfl
+  split
+  · exact (hX _ _).toLoc.trans (loc_setWd w _ _)
+  · exact ((hX _ _).trans ((fr_setNd _ n _).lw w)).toLoc
+
+theorem resumeTest_any (g : Graph) (d : Nat → Nat) (hr : Ranked g d) (hsym : EdgeSym g) (s : State) (w n : Nat)
+    (phase : Phase) (dir : Dir) (uid : String) (tag wait : Nat) (out : Outcome) (fuel : Nat) (hf : 0 < fuel)
+    (hw : w < s.workers.length) (hlast : (s.wd w).path.getLast? = some n) (hwalk : Walk g d (s.wd w).path)
+    (hdir : dir = .down → isUp g ((s.wd w).path.getD ((s.wd w).path.length - 2) 0) n = false) :
+    Loc w s (resumeTest g s w n phase dir uid tag wait out fuel).1 ∧
+    Walk g d ((resumeTest g s w n phase dir uid tag wait out fuel).1.wd w).path ∧
+    DirOK g ((resumeTest g s w n phase dir uid tag wait out fuel).1.wd w) := by
+  rw [resumeTest_eq]
+  have aA := reportOutcome_lw g s w n phase uid wait out
+  generalize (reportOutcome g s w n phase uid wait out).1 = sa at aA
+  have hwA : w < sa.workers.length := by rw [aA.workersLen]; exact hw
+  have waitCase : ∀ k, Loc w s (sa.setWd w (fun d => { d with pc := .test n phase dir uid tag k })) ∧
+      Walk g d ((sa.setWd w (fun d => { d with pc := .test n phase dir uid tag k })).wd w).path ∧
+      DirOK g ((sa.setWd w (fun d => { d with pc := .test n phase dir uid tag k })).wd w) := by
+    intro k
+    rw [wd_setWd_eq sa w _ hwA, aA.own]
+    refine ⟨aA.toLoc.trans (loc_setWd w sa _), hwalk, ?_⟩
+    exact dirOK_test g _ n phase dir uid tag k rfl n hlast hdir
+  split
+  · next st0 dur _ =>
+    obtain ⟨b1, b2, b3⟩ := recordResult_loc sa w n phase (if (phase == Phase.pre) = true then (s.wd w).preName else (g.node n).name) uid tag st0 dur
+    rw [aA.own] at b2 b3
+    obtain ⟨k1, k2, k3⟩ := continueAfter_any g d hr hsym w n phase dir fuel hf _ (recordResult sa w n phase
+        (if (phase == Phase.pre) = true then (s.wd w).preName else (g.node n).name) uid tag st0 dur).2
+      (reportOutcome g s w n phase uid wait out).2 (by rw [b1.workersLen]; exact hwA)
+      (by rw [b2]; exact hlast) (by rw [b2]; exact hwalk) (by rw [b2]; exact hdir)
+    exact ⟨(aA.toLoc.trans b1).trans k1, k2, k3⟩
+  · split
+    · exact waitCase _
+    · split
+      · exact waitCase _
+      · obtain ⟨k1, k2, k3⟩ := continueAfter_any g d hr hsym w n phase dir fuel hf sa false
+          (reportOutcome g s w n phase uid wait out).2 hwA
+          (by rw [aA.own]; exact hlast) (by rw [aA.own]; exact hwalk) (by rw [aA.own]; exact hdir)
+        exact ⟨aA.toLoc.trans k1, k2, k3⟩
+
+/-- the invariant: sizes of the tables, shape of every path, recorded directions -/
+structure TInv (g : Graph) (d : Nat → Nat) (s : State) : Prop where
+  nodesLen : s.nodes.length = g.nodes.length
+  cls : ClsOK g s
+  walk : ∀ v, Walk g d (s.wd v).path
+  dir : ∀ v, DirOK g (s.wd v)
+
+theorem TInv.step {g : Graph} {d : Nat → Nat} {s s' : State} {w : Nat} (h : TInv g d s) (a : Loc w s s')
+    (hwalk : Walk g d (s'.wd w).path) (hdir : DirOK g (s'.wd w)) : TInv g d s' := by
+  refine ⟨a.nodesLen.trans h.nodesLen, fun n hn => by rw [a.regsLen]; exact h.cls n hn, fun v => ?_, fun v => ?_⟩
+  · by_cases hv : v = w
+    · rw [hv]; exact hwalk
+    · rw [a.others v hv]; exact h.walk v
+  · by_cases hv : v = w
+    · rw [hv]; exact hdir
+    · rw [a.others v hv]; exact h.dir v
+
+theorem resume_tinv (g : Graph) (d : Nat → Nat) (hr : Ranked g d) (hsym : EdgeSym g) (s : State) (w : Nat) (out : Outcome)
+    (fuel : Nat) (hf : 0 < fuel) (hw : w < g.workers.length) (hp : PInv g s) (h : TInv g d s) :
+    TInv g d (resume g s w out fuel).1 := by
+  have hws : w < s.workers.length := by rw [hp.wlen]; exact hw
+  have loopCase : TInv g d (runLoop g w fuel s []).1 := by
+    obtain ⟨k1, k2, k3⟩ := runLoop_any g d hr hsym w fuel s [] (h.walk w) (fun h0 => by omega)
+    exact h.step k1 k2 k3
+  unfold resume
+  split
+  · exact loopCase
+  · exact loopCase
+  · next n phase dir uid tag wait heq =>
+    obtain ⟨_, hlast, _⟩ := hp.testOwn w n (by rw [heq]; rfl)
+    obtain ⟨k1, k2, k3⟩ := resumeTest_any g d hr hsym s w n phase dir uid tag wait out fuel hf hws hlast (h.walk w)
+      (fun hdn => h.dir w n phase uid tag wait (by rw [heq, hdn]) n hlast)
+    exact h.step k1 k2 k3
+  · exact h
+  · exact h
+
+theorem tinv_init (g : Graph) (d : Nat → Nat) (ncls : Nat) (store : List (String × List (String × String)))
+    (hidden : List Nat) (hcls : ∀ n, n < g.nodes.length → (g.node n).cls < ncls) :
+    TInv g d (initState g ncls store hidden) := by
+  have hwd : ∀ v, (initState g ncls store hidden).wd v = { path := [g.root] } ∨ (initState g ncls store hidden).wd v = {} := by
+    intro v
+    by_cases hv : v < g.workers.length
+    · left
+      unfold initState State.wd
+      simp only [List.getD_eq_getElem?_getD, List.getElem?_map, List.getElem?_eq_getElem hv]
+      rfl
+    · right
+      exact wd_of_ge _ v (by simp [initState]; omega)
+  refine ⟨by simp [initState], clsOK_init g ncls store hidden hcls, fun v => ?_, fun v => ?_⟩
+  · rcases hwd v with h | h <;> rw [h]
+    · exact walk_root g d g.root
+    · exact walk_nil g d
+  · rcases hwd v with h | h <;> rw [h] <;>
+      exact dirOK_of_pc g _ (by intro n ph dir uid tag wt hx; cases hx)
+
+/-- every reachable state satisfies the invariant -/
+theorem reachable_tinv {g : Graph} {d : Nat → Nat} (hr : Ranked g d) (hsym : EdgeSym g) {ncls : Nat}
+    {store : List (String × List (String × String))} (hcls : ∀ n, n < g.nodes.length → (g.node n).cls < ncls)
+    {s : State} (h : ReachableF g ncls store s) : TInv g d s := by
+  induction h with
+  | init hidden => exact tinv_init g d ncls store hidden hcls
+  | step s w out fuel hs hw hf ih => exact resume_tinv g d hr hsym s w out fuel hf hw (hs.pinv hsym) ih
+
+/-- in a reachable state without unexplored flat nodes every worker is in a good state -/
+theorem reachable_good {g : Graph} {d : Nat → Nat} (hr : Ranked g d) (hsym : EdgeSym g) {ncls : Nat}
+    {store : List (String × List (String × String))} (hcls : ∀ n, n < g.nodes.length → (g.node n).cls < ncls)
+    {s : State} (h : ReachableF g ncls store s) (he : Explored g s) (w : Nat) : Good g d w s :=
+  ⟨(reachable_tinv hr hsym hcls h).nodesLen, (reachable_tinv hr hsym hcls h).cls, he, (reachable_tinv hr hsym hcls h).walk w⟩
+
+
 end I2N.Trav.Term
